@@ -122,6 +122,15 @@ CHECKS = {
    text='Sequential anytime behaviour monotone in the cutoff point. All consecutive cutoff indices 1..K+1 of each run: lower bound non-decreasing, upper bound non-increasing, exact with both bounds at the optimum after the last poll; Coq solver model compared at every index. Monotonicity theorem open.',
    note=TB + "Hash-map iteration order abstracted; ties among equally valued terminal nodes reported and excluded from trajectory comparisons.",
    technique="Coq model + assume-guarantee proof / protocol LTS + differential correspondence + specification oracle"),
+ "C16": dict(cat="other", design="7.16",
+   text="Every shipped example solver computes the true optimum. Independent brute-force specifications of the twelve combinatorial problems in Gallina "
+        "(ExSpec.v: enumeration of subsets / permutations / assignments, NOT dynamic programs), extracted to OCaml and used as oracle for the example BINARIES "
+        "built from the working tree, on generated instance files in each format (bounded-exhaustive smallest sizes in the thorough tier) x widths {1,2,3,default} "
+        "x threads {1,2,4}; timeouts = hangs, non-zero exit = crash. The oracle is re-validated on every run against the optima documented in the examples' tests. "
+        "No Coq proof that the examples' models are well formed (stated in DESIGN.md): this is specification + differential test. Two defects were repaired "
+        "(knapsack, misp rough bounds), the others are recorded as known findings.",
+   note=TB + "exdriver.ml contains independent parsers of the twelve input formats (trusted glue).",
+   technique="independent Gallina enumeration specs (extracted) as oracle for the example binaries"),
 }
 
 def main():
